@@ -40,6 +40,13 @@ def make_convention(conv):
     if conv == 'ugrid':
         ds = builders.ugrid('tqp', with_edges=True)
         return ds, UGrid(ds)
+    if conv == 'ugrid-implied':
+        # no edge_dimension attribute: the edge grid is implied by the one edge table the file has
+        ds = builders.ugrid('tqp', supply=('edge_node',), edge_dimension_attr=False)
+        return ds, UGrid(ds)
+    if conv == 'ugrid-implied-ef':
+        ds = builders.ugrid('tqp', supply=('edge_face',), edge_dimension_attr=False)
+        return ds, UGrid(ds)
     raise ValueError(conv)
 
 
@@ -255,7 +262,8 @@ def body_default_linear_collision(ctx, conv, taken):
 
 
 KINDS = {'cf1d': ['face'], 'cf2d': ['face'], 'shoc_simple': ['face'],
-         'shoc_standard': ['face', 'left', 'back', 'node'], 'ugrid': ['face', 'edge', 'node']}
+         'shoc_standard': ['face', 'left', 'back', 'node'], 'ugrid': ['face', 'edge', 'node'],
+         'ugrid-implied': ['edge'], 'ugrid-implied-ef': ['edge']}
 
 
 def cases(tier):
@@ -263,7 +271,7 @@ def cases(tier):
     max_extra = 2 if q else 3
     for conv, kinds in KINDS.items():
         for kind in kinds:
-            ngrid = 1 if conv == 'ugrid' else 2
+            ngrid = 1 if conv.startswith('ugrid') else 2
             for ne in range(0, max_extra + 1):
                 extras = EXTRA[:ne]
                 perms = list(itertools.permutations(range(ngrid + ne)))
